@@ -25,7 +25,7 @@ type Event struct {
 	Kind  string `json:"kind,omitempty"`
 	From  string `json:"from,omitempty"`
 	To    string `json:"to,omitempty"`
-	In    string `json:"in,omitempty"`  // hex (literal up to 256 bytes, else keccak)
+	In    string `json:"in,omitempty"` // hex (literal up to 256 bytes, else keccak)
 	InLen int    `json:"inLen,omitempty"`
 	Gas   uint64 `json:"gas"`
 	Value string `json:"value,omitempty"`
